@@ -16,7 +16,13 @@ pub fn type_ref(t: &J) -> TypeRef {
 }
 
 fn path_of(ctx: &Context<'_>) -> J {
-    match ctx.path_node { Some(node) => serde_json::to_value(node).unwrap_or(json!([])), None => json!([]) }
+    match ctx.path_node {
+        Some(node) => match serde_json::to_value(node) {
+            Ok(J::Array(a)) => J::Array(a.into_iter().map(|x| if x.is_number() { json!(format!("#{x}")) } else { x }).collect()),
+            _ => json!([]),
+        },
+        None => json!([]),
+    }
 }
 
 /// Parent object id: the `String` carried by the parent FieldValue, or the root object.
